@@ -175,6 +175,7 @@ func runC14(t *testing.T, sched simrt.Schedule, prog c14Prog) ([]Violation, RunS
 		// A gRPC session whose write loop has ended (queue overflow, stop request) is torn down only when
 		// its read loop returns from Recv, i.e. at the client's next frame or disconnect. A client that
 		// neither sends nor hangs up is outside the server's control: supply the hang-up, then check.
+		c14Zombies = map[int]bool{}
 		zombies := map[string]bool{}
 		globals.hub.topics.Range(func(k, v any) bool {
 			for s := range v.(*Topic).sessions {
@@ -193,6 +194,7 @@ func runC14(t *testing.T, sched simrt.Schedule, prog c14Prog) ([]Violation, RunS
 			for _, c := range w.Clients {
 				if c.Transport != TransportLP && c.Connected && zombies[fmt.Sprintf("10.0.0.%d:%d", 1+c.Idx, 1000+c.Conn)] {
 					simrt.Probe("c14.grpc_write_loop_gone_client_hangs_up")
+					c14Zombies[c.Idx] = true
 					c.disconnect()
 				}
 			}
@@ -312,6 +314,10 @@ func runC14(t *testing.T, sched simrt.Schedule, prog c14Prog) ([]Violation, RunS
 	return viol, st
 }
 
+// c14Zombies: clients whose gRPC session had lost its write loop (slow consumer cut off at the outbound queue
+// limit): whatever the server answered after that went into a queue nobody drains - documented overload behaviour.
+var c14Zombies = map[int]bool{}
+
 func c14Oracle(w *simWorld, homeWaits map[string]bool) (out []Violation) {
 	if len(w.rt.Panics) > 0 {
 		return nil
@@ -343,7 +349,7 @@ func c14Oracle(w *simWorld, homeWaits map[string]bool) (out []Violation) {
 					continue
 				}
 			}
-			if overload > 0 {
+			if overload > 0 || c14Zombies[c.Idx] {
 				simrt.Probe("c14.unanswered_under_overload")
 				continue
 			}
